@@ -141,8 +141,9 @@ def fp_of_function(name):
 def func_dates(tier, seed):
     if tier == 'thorough':
         return list(L.FUNC_DATES)
-    k = len(L.FUNC_DATES)
-    return [L.FUNC_DATES[seed % k], L.FUNC_DATES[(seed + 2) % k]]
+    # quick: one date, rotated by the seed (seeds 0..3 cover: between prices, on a price date, after all prices,
+    # before every price); thorough: all four
+    return [L.FUNC_DATES[(seed + 1) % len(L.FUNC_DATES)]]
 
 
 # sum forms: name -> (ast of the operand, reference value of the operand for selected row i given
